@@ -16,6 +16,21 @@ chk("C18", "exploration",
     TRUST + " Completeness is within the pattern/host universe.",
     "exhaustive enumeration of inputs x all map-iteration orders (stateless DFS over choice points) against a reference matcher", "§4 C18")
 
+chk("C05", "model_checking",
+    "Explicit-state breadth-first search to a FIXPOINT over the real RoundRobinBackend inside a running proxy (events add/remove/dispatch over 4-5 udp and tcp backend addresses; state = ordered list x cursor x map keys x proxy index): covers operation sequences of any length over the address universe; every reachable state is followed by a probe of 2k+1 dispatches checking the rotation window, registered-only targets and zero-backend behaviour. The concurrency half (dispatch racing with membership changes) is explored by the C09 schedule search.",
+    TRUST + " Successor states are computed by replaying the shortest history on a fresh world (no cloning).",
+    "explicit-state BFS by replay over the real objects, to a fixpoint", "§4 C05")
+chk("C03", "exploration",
+    "Complete product of the decision table (Route shape x next-hop URI host/port/transport/lr x To host x static table x Request-URI class x keep-next-hop x arrival transport x service names x backends x learning prelude), each cell executed on a fresh simulated world started through the real startProxy; because the simulated network holds every packet and connection attempt the proxy made until quiescence, 'exactly one destination and nothing else' is decided, not inferred from a timeout.",
+    TRUST + " Regex semantics of service names: Go regexp in code and reference.",
+    "exhaustive small-scope input enumeration on the real code in a deterministic simulation, reference decision procedure", "§4 C03")
+chk("C13", "exploration",
+    "Complete product: first Route entry (own by address / alias / with and without port, near misses, other listeners and services, decorated own entries) x remaining list of 0-3 entries over an entry alphabet x every layout (all compositions into header lines) x keep-next-hop x arrival transport; the emitted Route list is decoded by an independent reader and compared component-wise with the reference list.",
+    TRUST, "exhaustive small-scope input enumeration on the real code in a deterministic simulation, reference model", "§4 C13")
+chk("C14", "exploration",
+    "Every derivation of a bounded grammar per decoded type (SIP/SIPS URI, Via, From, To, Route, Record-Route, Request-URI, CSeq) on the real Parse*/String pairs: decode->encode compared component-wise with the generator's abstract value through an independent reader, encode-decode-encode idempotence, accessor values equal the denoted components. IPv6 references and user parts with ';'/'?' are generated and tracked as known findings.",
+    TRUST, "exhaustive enumeration of grammar derivations (pure functions), round-trip and accessor laws", "§4 C14")
+
 ALL = ["C%02d" % i for i in range(1, 21)]
 man = {
     "version": 1,
